@@ -5,13 +5,18 @@ are recorder tokens) on symbolic signatures: 1 or 2 successors, rows over four
 variables covering every copy/drop class with names chosen against the class order
 (z: copyable+droppable, a: droppable only, m: linear, b: copyable only), the droppable part of
 each row chosen independently per successor, the non-droppable part shared (the linearity checker
-guarantees that), every row given in two source orders.  `sort_vars` is modelled by its
-specification (droppable first, then by name; R-C01.3 ties the specification to `compare_var`),
-`choose_vars_for_tuple_sum` and `set_block_outputs` are recorders.
+guarantees that), every row given in two source orders.  `sort_vars` / `compare_var` are interpreted
+too (`sorted(..., key=cmp_to_key(compare_var))`); the oracle is the specification "droppable first, then by
+name"; `choose_vars_for_tuple_sum` and `set_block_outputs` are recorders.  (If `sort_vars` cannot be interpreted it is
+modelled by the specification and the flag returned by `run` is False: R-C01.3's shape rules then tie it to `compare_var`.)
 
-Decided: for every successor i, (variables in branch-sum row i) ++ (regular outputs) is exactly
-`sort_vars(output_rows[i])` -- the order in which the successor block, compiled by the same
-function, declares its inputs.  A mismatch is an ill-typed edge between two basic blocks.
+Decided:
+  outputs   for every successor i, (variables in branch-sum row i) ++ (regular outputs) is exactly spec_sort(output_rows[i]);
+  inputs    a non-entry block declares its inputs (types given to `add_block`, and the binding of the block's input wires to
+            places in the data-flow container) in the order spec_sort(input_row); the entry block binds them in the order of
+            the signature (the function's parameters).
+So what a block passes is what its successor, compiled by the same function, declares.  A mismatch is an ill-typed edge between
+two basic blocks.
 """
 
 from __future__ import annotations
@@ -35,7 +40,7 @@ def _spec_sort(row):
     return sorted(row, key=lambda p: (not p.attrs["ty"].attrs["droppable"], p.name))
 
 
-def run(ctx: Ctx) -> None:
+def run(ctx: Ctx) -> bool:
     idx = ctx.idx
     cb = idx.find_func("compile_bb", "guppylang_internals.compiler.cfg_compiler")
     key = f"{cb.qualname}#outputs-match-successor-inputs"
@@ -54,6 +59,16 @@ def run(ctx: Ctx) -> None:
                 cases.append([d0 + nd, d1 + nd])
     bad: list = []
     n = 0
+    # is sort_vars interpretable?  (one probe; otherwise it is modelled by the specification)
+    probe_env = {"__row__": [_place(x) for x in ("m", "z", "b", "a")]}
+    try:
+        got = PyEval(idx, cb.module.name).ev(ast.parse("sort_vars(__row__)", mode="eval").body, probe_env)
+        sort_hook = {}
+        if not isinstance(got, list):
+            raise Unsupported("sort_vars does not give a list")
+    except (Unsupported, Raised):
+        sort_hook = {"sort_vars": lambda node, ev, env: _spec_sort(ev.ev(node.args[0], env))}
+    decided = not sort_hook
     for rows_names in cases:
         for flip in itertools.product((False, True), repeat=len(rows_names)):
             rows = [[_place(x) for x in (reversed(r) if f else r)] for r, f in zip(rows_names, flip)]
@@ -86,7 +101,7 @@ def run(ctx: Ctx) -> None:
                 "DFContainer": lambda node, ev, env: dfg,
                 "StmtCompiler": lambda node, ev, env: Tok("stmt_compiler", __methods__={"compile_stmts": lambda r, a: a[1]}),
                 "ExprCompiler": lambda node, ev, env: Tok("expr_compiler", __methods__={"compile": lambda r, a: port("pred_port")}),
-                "sort_vars": lambda node, ev, env: _spec_sort(ev.ev(node.args[0], env)),
+                **sort_hook,
                 "choose_vars_for_tuple_sum": h_choose,
             }
             ev = PyEval(idx, cb.module.name)
@@ -94,13 +109,13 @@ def run(ctx: Ctx) -> None:
                 r = ev.run(stmts, env)
             except Unsupported as e:
                 ctx.undecided("R-C01.6", key, cb.where, str(e))
-                return
+                return False
             except Raised as e:
                 bad.append({"output_rows": [[p.name for p in r_] for r_ in rows], "problem": f"raises {e}"})
                 continue
             if "outputs" not in rec:
                 ctx.undecided("R-C01.6", key, cb.where, f"set_block_outputs not reached ({r[0]})")
-                return
+                return False
             regular = [p.name for p in rec["outputs"]]
             for i, row in enumerate(rows):
                 in_sum = [p.name for p in rec["sum_rows"][i]] if rec.get("sum_rows") is not None else []
@@ -114,3 +129,56 @@ def run(ctx: Ctx) -> None:
                                                    "counterexamples": bad[:3], "n_counterexamples": len(bad)},
               "a basic block passes its live variables to a successor in another order (or another set) than the successor declares as "
               "inputs: the two blocks' signatures do not match and the HUGR is invalid")
+
+    # ---------------------------------------------------------------- the input side
+    key = f"{cb.qualname}#inputs-declared-in-the-order-predecessors-pass-them"
+    bad = []
+    n = 0
+    names = list(VARS)
+    for k in range(len(names) + 1):
+        for row_names in itertools.permutations(names, k):
+            for is_entry in (False, True):
+                n += 1
+                row = [_place(x) for x in row_names]
+                for p in row:
+                    p.attrs["ty"].attrs["__methods__"] = {"to_hugr": lambda r, a: ("hugr", r.name)}
+                wires = [Tok(f"in_wire{i}", __ident__=1) for i in range(len(row))]
+                declared: list = []
+                bound: list = []
+                block = Tok("block", input_node=wires, __methods__={"set_block_outputs": lambda r, a: None}, __ident__=1)
+                hugr = Tok("hugr", __methods__={"port_type": lambda r, a: Tok("OpaqueBool")}, __ident__=1)
+                builder = Tok("builder", hugr=hugr, exit=Tok("exit_node"), __ident__=1)
+                builder.attrs["__methods__"] = {"add_entry": lambda r, a, declared=declared: (declared.append("entry"), block)[1],
+                                                "add_block": lambda r, a, declared=declared: (declared.extend(a), block)[1]}
+                dfg_builder = Tok("dfg.builder", __methods__={"add_op": lambda r, a: Tok("unit_sum_port", __ident__=1)}, __ident__=1)
+                dfg = Tok("dfg", builder=dfg_builder, __getitem__=lambda p: p, __ident__=1)
+                dfg.attrs["__methods__"] = {"__setitem__": lambda r, a, bound=bound: bound.append((a[0].name, a[1].name))}
+                succ = Tok("succ", is_exit=False, __ident__=1)
+                bb = Tok("bb", successors=[succ], sig=Tok("sig", input_row=row, output_rows=[[]], __ident__=1), branch_pred=None, is_exit=False, reachable=True,
+                         statements=[], __ident__=1)
+                env = {
+                    params[0]: bb, params[1]: builder, params[2]: is_entry, params[3]: Tok("ctx", __ident__=1),
+                    "DFContainer": lambda node, ev, env, dfg=dfg: dfg,
+                    "StmtCompiler": lambda node, ev, env: Tok("stmt_compiler", __methods__={"compile_stmts": lambda r, a: a[1]}),
+                    "ExprCompiler": lambda node, ev, env: Tok("expr_compiler", __methods__={"compile": lambda r, a: Tok("pred_port")}),
+                    **sort_hook,
+                }
+                ev = PyEval(idx, cb.module.name)
+                try:
+                    ev.run(stmts, env)
+                except Unsupported as e:
+                    ctx.undecided("R-C01.6", key, cb.where, str(e))
+                    return False
+                except Raised as e:
+                    bad.append({"input_row": list(row_names), "entry_block": is_entry, "problem": f"raises {e}"})
+                    continue
+                order = list(row_names) if is_entry else [p.name for p in _spec_sort(row)]
+                want_bound = [(x, f"in_wire{i}") for i, x in enumerate(order)]
+                want_decl = ["entry"] if is_entry else [("hugr", f"ty_{x}") for x in order]
+                if bound != want_bound or declared != want_decl:
+                    bad.append({"input_row": list(row_names), "entry_block": is_entry, "input_wires_bound_to": bound, "should_be": want_bound,
+                                "declared_input_types": [d if isinstance(d, str) else d[1] for d in declared]})
+    ctx.check(not bad, "R-C01.6", key, cb.where, {"cases": n, "counterexamples": bad[:3], "n_counterexamples": len(bad)},
+              "a basic block declares or binds its inputs in another order than its predecessors pass them (sorted: droppable first, then by "
+              "name; the entry block: the order of the function's parameters): values arrive under the wrong variable")
+    return decided
